@@ -15,7 +15,7 @@ from sa.aliasderef import AliasDeref, catches_both, enclosing_catch
 from sa.callgraph import CallGraph
 from sa.report import Ctx
 from sa.srcmodel import AnalysisError, FunctionInfo, Program, ancestors, dotted, norm, unparse, walk_no_nested
-from sa.util import calls_in, cfg_of, key, node_index, stmt_of, where
+from sa.util import canon_text, calls_in, cfg_of, key, node_index, stmt_of, where
 
 MG = "_griffe.merger"
 
@@ -166,83 +166,103 @@ def run(prog: Program, ctx: Ctx) -> None:  # noqa: PLR0912,PLR0915
                 good = raised is None and [e[0] for e in events] == ["_merge_module_stubs"]
         ctx.ob("R3", f"merge_stubs|{s1}|{s2}", good, f"merge_stubs(mod{s1}, mod{s2}): expected {want}; got result={res} raised={raised} events={[e[0] for e in events]}", where(ms))
     del it.stubs[f"{MG}._merge_module_stubs"]
+    # implicit merge in set_member: a module set under a name that already holds a module of another file (mod.py / mod.pyi, either order)
     sm = prog.function("_griffe.mixins.SetMembersMixin.set_member")
-    mcalls = [c for c in calls_in(sm.node) if (dotted(c.func) or "").endswith("merge_stubs")]
-    ctx.expect_min("R3", len(mcalls), 1)
-    for c in mcalls:
-        st = stmt_of(c)
-        stores = [s for s in walk_no_nested(sm.node) if isinstance(s, ast.Assign) and isinstance(s.targets[0], ast.Subscript) and unparse(s.targets[0].value) == "self.members"]
-        ok = isinstance(st, ast.Assign) and stores and all(unparse(st.targets[0]) == unparse(s.value) for s in stores)
-        ctx.ob("R3", key(sm, "merge-result-stored"), bool(ok), "the module stored after an implicit stub merge is the *result* of merge_stubs (the regular module), whichever "
-               "of the two files was met first" if ok else "set_member does not store merge_stubs' result: when the .pyi is met first the stubs module stays in the tree", where(sm, c))
-        got = enclosing_catch(c)
-        ctx.ob("R3", key(sm, "ValueError-suppressed"), "ValueError" in got, "two regular modules with the same name do not raise", where(sm, c))
-        ctx.ob("R3", key(sm, "alias-errors-suppressed"), catches_both(got), "alias errors during an implicit merge do not escape set_member", where(sm, c))
-        a0, a1 = (unparse(a) for a in c.args[:2])
-        ctx.ob("R3", key(sm, "merge-arguments"), {a0, a1} == {"member", unparse(st.targets[0]) if isinstance(st, ast.Assign) else "value"},
-               "the existing member and the new value are the two modules merged", where(sm, c))
+    itm = Interp(prog, max_depth=60, max_steps=2_000_000)
+
+    def newm(cls: str, *a: object, **k: object) -> Obj:
+        return itm._construct(prog.cls(f"_griffe.models.{cls}"), list(a), dict(k))
+
+    for first, second in ((".py", ".pyi"), (".pyi", ".py"), (".py", ".py"), (".pyi", ".pyi")):
+        pkg = newm("Module", "pkg", filepath=PurePosixPath("/s/pkg/__init__.py"))
+        mods = []
+        for i_, suf in enumerate((first, second)):
+            mod_ = newm("Module", "mod", filepath=PurePosixPath(f"/s/pkg/mod{suf}" if first != second else f"/s{i_}/pkg/mod{suf}"))
+            itm.call(sm, mod_, "f", newm("Function", "f", returns=("R" if suf == ".pyi" else None)))
+            if suf == ".py":
+                itm.call(sm, mod_, f"only_runtime{i_}", newm("Attribute", f"only_runtime{i_}"))
+            mods.append(mod_)
+        try:
+            itm.steps = 0
+            itm.call(sm, pkg, "mod", mods[0])
+            itm.call(sm, pkg, "mod", mods[1])
+            kept = pkg.attrs["members"]["mod"]
+            got = ("first" if kept is mods[0] else "second" if kept is mods[1] else "other", str(kept.attrs["_filepath"]).rsplit(".", 1)[-1], kept.attrs["members"]["f"].attrs["returns"],
+                   sorted(k_ for k_ in kept.attrs["members"] if k_.startswith("only_runtime")))
+        except Raised as r:
+            got = (f"raises {r.exc}",)
+        if {first, second} == {".py", ".pyi"}:
+            idx = 0 if first == ".py" else 1
+            want = ("first" if idx == 0 else "second", "py", "R", [f"only_runtime{idx}"])
+        else:
+            want = ("second", first[1:], "R" if first == ".pyi" else None, ["only_runtime1"] if first == ".py" else [])
+        ctx.ob("R3", f"implicit-merge|{first} then {second}", got == want,
+               f"pkg.set_member('mod', mod{first}) then pkg.set_member('mod', mod{second}): kept {got}; expected {want} (the regular module with the stub's types, "
+               "whichever file is met first; two modules of the same kind: the later one, no exception)", where(sm))
 
     # ------------------------------------------------------------------ R4 loader wiring
     ctx.rule("R4", "_load_package merges the stubs package loaded under the same name; stub sub-modules are loaded unless the stubs live inside the "
                    "package itself (same directory), for every directory layout")
     lp = prog.function("_griffe.loader.GriffeLoader._load_package")
-    asg = [s for s in walk_no_nested(lp.node) if isinstance(s, ast.Assign) and unparse(s.targets[0]) == "submodules"]
-    if len(asg) != 1:
-        raise AnalysisError("C19-R4: `submodules = ...` not found in _load_package")
     layouts = {
         "stubs inside the package": ("/s/pkg/__init__.py", "/s/pkg/__init__.pyi", False),
         "pkg-stubs next to the package": ("/s/pkg/__init__.py", "/s/pkg-stubs/__init__.pyi", True),
         "pkg-stubs in another search path": ("/s/pkg/__init__.py", "/t/pkg-stubs/__init__.pyi", True),
         "single-file module with sibling stub": ("/s/mod.py", "/s/mod.pyi", False),
+        "no stubs": ("/s/pkg/__init__.py", None, None),
     }
-    for label, (p, st_, want) in layouts.items():
-        env = Env(lp.module)
-        env.set("submodules", True)
-        env.set("package", Obj(None, {"path": PurePosixPath(p), "stubs": PurePosixPath(st_), "name": "pkg"}))
-        try:
-            # run the pure local assignments that precede the decision in the same block (helpers such as `stubs_in_package = ...`)
-            from sa.srcmodel import parent as _parent
+    for (label, (p_, st_, want_sub)), submodules in itertools.product(layouts.items(), (True, False)):
+        loads: list[tuple] = []
 
-            block = getattr(_parent(asg[0]), "body", [])
-            for stmt in block:
-                if stmt is asg[0]:
-                    break
-                if isinstance(stmt, (ast.Assign, ast.AnnAssign)) and not any(isinstance(n, ast.Name) and n.id == "self" for n in ast.walk(stmt)):
-                    it._stmt(stmt, env)
-            got = it.truth(it.eval(asg[0].value, env))
+        def load_module(_i, _self, name, path, *, submodules=True, loads=loads):  # noqa: ANN001
+            mod_ = newm("Module", name, filepath=path)
+            itm.call(sm, mod_, "f", newm("Function", "f", returns=("R" if str(path).endswith(".pyi") else None)))
+            loads.append((name, str(path), submodules, mod_))
+            return mod_
+
+        itm.stubs["_griffe.loader.GriffeLoader._load_module"] = load_module
+        itm.stubs["_griffe.loader.GriffeLoader.expand_wildcards"] = lambda _i, *_a, **_k: None
+        package = Obj(prog.cls("_griffe.finder.Package"), {"name": "pkg", "path": PurePosixPath(p_), "stubs": PurePosixPath(st_) if st_ else None}, label="package")
+        loader = Obj(prog.cls("_griffe.loader.GriffeLoader"), {}, label="loader")
+        try:
+            itm.steps = 0
+            res = itm.call(lp, loader, package, submodules=submodules)
+            got = ([(n_, pth, sub) for n_, pth, sub, _m in loads], res is loads[0][3] if loads else None, res.attrs["members"]["f"].attrs["returns"])
         except Raised as r:
-            got = f"raises {r.exc}"
-        ctx.ob("R4", f"stub-submodules|{label}", got == want, f"{label}: load stub sub-modules = {got}, expected {want}", where(lp, asg[0]))
-    mc = [c for c in calls_in(lp.node) if dotted(c.func) == "merge_stubs"]
-    ok = len(mc) == 1 and unparse(mc[0].args[0]) == "top_module" and unparse(mc[0].args[1]) == "stubs"
-    ctx.ob("R4", key(lp, "merge-call"), ok, "the loaded stubs package is merged into the loaded package", where(lp))
-    lm = [s for s in walk_no_nested(lp.node) if isinstance(s, ast.Assign) and unparse(s.targets[0]) == "stubs" and isinstance(s.value, ast.Call)]
-    ok = len(lm) == 1 and unparse(lm[0].value.args[0]) == "package.name" and unparse(lm[0].value.args[1]) == "package.stubs"
-    ctx.ob("R4", key(lp, "stubs-loaded-under-package-name"), ok, "the stubs package is loaded under the runtime package's own name", where(lp))
+            got = (f"raises {r.exc}",)
+        if st_ is None:
+            want = ([("pkg", p_, submodules)], True, None)
+        else:
+            want = ([("pkg", p_, submodules), ("pkg", st_, bool(submodules and want_sub))], True, "R")
+        ctx.ob("R4", f"load-package|{label}|submodules={submodules}", got == want,
+               f"{label}, submodules={submodules}: loads {got[0] if len(got) > 1 else got}, returns the runtime module: {got[1] if len(got) > 1 else None}, f -> {got[2] if len(got) > 2 else None}; "
+               f"expected {want}", where(lp))
+    itm.stubs.clear()
 
     # ------------------------------------------------------------------ R5 alias discipline
     ctx.rule("R5", "no alias error can escape a merge: every dereference of a possibly-alias member in merger.py is guarded, handled or tabled")
     ad = AliasDeref(prog, cg)
     scope = [f for f in prog.functions.values() if f.module.name == MG]
+    # keys use canonical names (sa.util.canon_names: parameters p0.., other bound names v0.. by first binding), so renaming variables changes nothing
     TABLED = {
-        (f"{MG}._merge_function_stubs", "parameter.annotation"): "loop variable over Parameters: a Parameter, never an alias",
-        (f"{MG}._merge_function_stubs", "stubs.parameters"): "called from the dispatch under its handler for both alias errors; the stub member is not an alias (checked by R2)",
-        (f"{MG}._merge_function_stubs", "function.parameters"): "same",
-        (f"{MG}._merge_function_stubs", "stubs.returns"): "same",
-        (f"{MG}._merge_attribute_stubs", "stubs.annotation"): "same",
-        (f"{MG}._merge_stubs_docstring", "obj.docstring"): "same (module level: modules are not aliases)",
-        (f"{MG}._merge_stubs_docstring", "stubs.docstring"): "same",
-        (f"{MG}._merge_stubs_overloads", "stubs.overloads"): "stubs is a module/class object, not an alias",
-        (f"{MG}._merge_stubs_members", "stubs.members"): "same",
-        (f"{MG}._merge_stubs_members", "stubs.imports"): "same",
-        (f"{MG}._merge_stubs_members", "obj.members"): "obj is the runtime module/class reached through the guarded dispatch",
-        (f"{MG}._merge_stubs_members", "obj.imports"): "same",
-        (f"{MG}.merge_stubs", "mod1.filepath"): "modules, not aliases; BuiltinModuleError is suppressed by the caller",
-        (f"{MG}.merge_stubs", "mod2.filepath"): "same",
+        (f"{MG}._merge_function_stubs", "v0.annotation"): "loop variable over Parameters: a Parameter, never an alias",
+        (f"{MG}._merge_function_stubs", "p1.parameters"): "called from the dispatch under its handler for both alias errors; the stub member is not an alias (checked by R2)",
+        (f"{MG}._merge_function_stubs", "p0.parameters"): "same",
+        (f"{MG}._merge_function_stubs", "p1.returns"): "same",
+        (f"{MG}._merge_attribute_stubs", "p1.annotation"): "same",
+        (f"{MG}._merge_stubs_docstring", "p0.docstring"): "same (module level: modules are not aliases)",
+        (f"{MG}._merge_stubs_docstring", "p1.docstring"): "same",
+        (f"{MG}._merge_stubs_overloads", "p1.overloads"): "stubs is a module/class object, not an alias",
+        (f"{MG}._merge_stubs_members", "p1.members"): "same",
+        (f"{MG}._merge_stubs_members", "p1.imports"): "same",
+        (f"{MG}._merge_stubs_members", "p0.members"): "obj is the runtime module/class reached through the guarded dispatch",
+        (f"{MG}._merge_stubs_members", "p0.imports"): "same",
+        (f"{MG}.merge_stubs", "p0.filepath"): "modules, not aliases; BuiltinModuleError is suppressed by the caller",
+        (f"{MG}.merge_stubs", "p1.filepath"): "same",
     }
     sites = ad.scan(scope, TABLED)
     for stt in sites:
-        ctx.ob("R5", key(stt.fn, f"deref:{norm(stt.node, 60)}"), stt.status != "OPEN", f"{stt.status}: {stt.reason}" if stt.status != "OPEN" else stt.reason, where(stt.fn, stt.node))
+        ctx.ob("R5", key(stt.fn, f"deref:{canon_text(stt.fn, stt.node)}"), stt.status != "OPEN", f"{stt.status}: {stt.reason}" if stt.status != "OPEN" else stt.reason, where(stt.fn, stt.node))
     ctx.expect_min("R5", len(sites), 5)
     fo = prog.function(f"{MG}._merge_stubs_overloads")
     for s in walk_no_nested(fo.node):
